@@ -236,6 +236,8 @@ def m_C02(v):
                 exp = int(g["per"]) * (int(g["nrw"]) + int(g.get("tg", "0")))
                 if amt != exp:
                     out.append((i, f"C02 deposit of {amt} accepted, per-ticket x winners = {exp}"))
+                if len(v.call[i]["esdts"]) != 1 or any(t != lp for (t, n, a) in v.call[i]["esdts"]) or v.call[i].get("egld", 0):
+                    out.append((i, f"C02 deposit accepted although it is not a single transfer of the launchpad token: {v.call[i]['esdts']}"))
                 if int(g["nrw"]) + int(g.get("tg", "0")) != v.deploy["nrw"]:
                     out.append((i, f"C02/C12 tickets that can win {int(g['nrw']) + int(g.get('tg', '0'))} != configured {v.deploy['nrw']}"))
         if k == "dump" and v.D[i]:
@@ -269,6 +271,11 @@ def m_C03(v):
         any_claim = any(d.get("cl") == "1" for d in addrs.values())
         cpay_zero_after_withdraw = False
         if any_claim:
+            # settled participants' tickets are gone: the reported count must follow them down
+            # (reported winners = sum of the remaining per-participant winner views, at all times)
+            remaining = sum(len(winners_of(d)) for d in addrs.values())
+            if done(g) and int(g["nrw"]) != remaining:
+                out.append((i, f"C03 reported winners {g['nrw']} != sum of per-participant winners {remaining} after claims"))
             continue
         last = int(g["last"])
         wins = []
